@@ -1,0 +1,15 @@
+//! Verification hooks, compiled only with `--cfg octo_squirrel_verif`.
+use std::cell::Cell;
+
+thread_local! {
+    static CLOCK: Cell<Option<u64>> = const { Cell::new(None) };
+}
+
+/// Pin (or release with `None`) the wall clock seen by the protocol code on this thread.
+pub fn set_clock(now: Option<u64>) {
+    CLOCK.with(|c| c.set(now));
+}
+
+pub fn clock() -> Option<u64> {
+    CLOCK.with(|c| c.get())
+}
